@@ -96,9 +96,9 @@ type vEntry struct {
 }
 
 type vModel struct {
-	entries                      []vEntry
-	storeID, allowDup, useWhole  bool
-	maxCid                       uint64
+	entries                     []vEntry
+	storeID, allowDup, useWhole bool
+	maxCid                      uint64
 }
 
 func vIsIdentity(c cid.Cid) bool { return c.Prefix().MhType == 0 }
